@@ -112,6 +112,9 @@ fn install_panic_hook() {
                         "<non-string panic>".to_string()
                     };
                     let location = info.location().map(|l| format!("{}:{}", l.file(), l.line())).unwrap_or_default();
+                    if std::env::var_os("VSIM_BACKTRACE").is_some() {
+                        eprintln!("panic: {message} at {location}\n{}", std::backtrace::Backtrace::force_capture());
+                    }
                     LAST_PANIC.with(|p| *p.borrow_mut() = Some(PanicInfo { message, location }));
                 });
             } else {
